@@ -29,12 +29,18 @@ import (
 
 // ---- TCP forwarder ------------------------------------------------------------
 
+// fwPair is one forwarded connection: down = the standby's side, up = the active's side.
+type fwPair struct {
+	down, up net.Conn
+	frozen   bool // the standby's side was closed, the active's side is kept open (half-open for the active)
+}
+
 type forwarder struct {
 	ln     net.Listener
 	target string
 	mu     sync.Mutex
 	up     bool
-	conns  map[net.Conn]struct{}
+	pairs  map[*fwPair]struct{}
 	wg     sync.WaitGroup
 	closed bool
 }
@@ -44,7 +50,7 @@ func newForwarder(target string) (*forwarder, error) {
 	if err != nil {
 		return nil, err
 	}
-	f := &forwarder{ln: ln, target: target, up: true, conns: map[net.Conn]struct{}{}}
+	f := &forwarder{ln: ln, target: target, up: true, pairs: map[*fwPair]struct{}{}}
 	f.wg.Add(1)
 	go f.accept()
 	return f, nil
@@ -52,21 +58,10 @@ func newForwarder(target string) (*forwarder, error) {
 
 func (f *forwarder) addr() string { return f.ln.Addr().String() }
 
-func (f *forwarder) track(c net.Conn) bool {
+func (f *forwarder) accepting() bool {
 	f.mu.Lock()
 	defer f.mu.Unlock()
-	if f.closed || !f.up {
-		return false
-	}
-	f.conns[c] = struct{}{}
-	return true
-}
-
-func (f *forwarder) untrack(c net.Conn) {
-	f.mu.Lock()
-	delete(f.conns, c)
-	f.mu.Unlock()
-	c.Close()
+	return !f.closed && f.up
 }
 
 func (f *forwarder) accept() {
@@ -76,39 +71,107 @@ func (f *forwarder) accept() {
 		if err != nil {
 			return
 		}
-		if !f.track(c) {
+		if !f.accepting() {
 			c.Close() // link down: the standby sees an immediate close
 			continue
 		}
 		up, err := net.Dial("tcp", f.target)
 		if err != nil {
-			f.untrack(c)
+			c.Close()
 			continue
 		}
-		if !f.track(up) {
+		p := &fwPair{down: c, up: up}
+		f.mu.Lock()
+		ok := !f.closed && f.up
+		if ok {
+			f.pairs[p] = struct{}{}
+		}
+		f.mu.Unlock()
+		if !ok {
 			up.Close()
-			f.untrack(c)
+			c.Close()
 			continue
 		}
 		f.wg.Add(2)
-		go func() { defer f.wg.Done(); io.Copy(up, c); f.untrack(up); f.untrack(c) }()
-		go func() { defer f.wg.Done(); io.Copy(c, up); f.untrack(c); f.untrack(up) }()
+		go func() { // standby -> active
+			defer f.wg.Done()
+			io.Copy(p.up, p.down)
+			p.down.Close()
+			if !f.isFrozen(p) {
+				p.up.Close() // ends the other direction, which drops the pair
+			}
+		}()
+		go func() { // active -> standby
+			defer f.wg.Done()
+			io.Copy(p.down, p.up)
+			if f.isFrozen(p) {
+				io.Copy(io.Discard, p.up) // nobody is behind it any more; keep the active's side alive until released
+			}
+			f.mu.Lock()
+			delete(f.pairs, p)
+			f.mu.Unlock()
+			p.down.Close()
+			p.up.Close()
+		}()
 	}
 }
 
-// cut closes every forwarded connection; with keepDown new connections are refused until restore.
+func (f *forwarder) isFrozen(p *fwPair) bool {
+	f.mu.Lock()
+	defer f.mu.Unlock()
+	return p.frozen
+}
+
+// cut closes every forwarded connection (both sides, frozen ones included); with keepDown new
+// connections are refused until restore.
 func (f *forwarder) cut(keepDown bool) {
 	f.mu.Lock()
 	if keepDown {
 		f.up = false
 	}
-	cs := make([]net.Conn, 0, len(f.conns))
-	for c := range f.conns {
-		cs = append(cs, c)
+	ps := make([]*fwPair, 0, len(f.pairs))
+	for p := range f.pairs {
+		ps = append(ps, p)
 	}
 	f.mu.Unlock()
-	for _, c := range cs {
-		c.Close()
+	for _, p := range ps {
+		p.down.Close()
+		p.up.Close()
+	}
+}
+
+// freeze makes every forwarded connection half-open for the active: the standby's side is closed (the
+// standby sees the end of its stream and reconnects), the active's side stays open and is drained, so the
+// active notices nothing — what a power cycle, a pulled cable or a dropped firewall state does to the
+// active's end of a TCP connection.  Returns the number of connections frozen.
+func (f *forwarder) freeze() int {
+	f.mu.Lock()
+	var ps []*fwPair
+	for p := range f.pairs {
+		if !p.frozen {
+			p.frozen = true
+			ps = append(ps, p)
+		}
+	}
+	f.mu.Unlock()
+	for _, p := range ps {
+		p.down.Close()
+	}
+	return len(ps)
+}
+
+// releaseFrozen closes the active's side of every frozen connection: the active finally notices.
+func (f *forwarder) releaseFrozen() {
+	f.mu.Lock()
+	var ps []*fwPair
+	for p := range f.pairs {
+		if p.frozen {
+			ps = append(ps, p)
+		}
+	}
+	f.mu.Unlock()
+	for _, p := range ps {
+		p.up.Close()
 	}
 }
 
@@ -144,11 +207,11 @@ func startActive(hb time.Duration) (*activeSide, string, error) {
 		cfg.ListenAddr = addr
 		cfg.HeartbeatInterval = hb
 		a := &activeSide{store: ha.NewInMemorySessionStore(), tbl: table{}, ver: map[string]int{}}
-		lg, drops := dropCountingLogger()
+		lg, counts := countingLogger()
 		if os.Getenv("C13_DEBUG_STACKS") != "" {
 			lg, _ = zap.NewDevelopment()
 		}
-		a.drops = drops
+		a.drops, a.logc = &counts.drops, counts
 		a.syn = ha.NewHASyncer(cfg, a.store, lg)
 		if err := a.syn.Start(); err != nil {
 			return nil, "", err
@@ -180,7 +243,7 @@ func startActive(hb time.Duration) (*activeSide, string, error) {
 // ---- generated histories -------------------------------------------------------
 
 type e2ePhase struct {
-	Kind    string // up | burst | down | restart | race
+	Kind    string // up | burst | down | restart | race | halfopen
 	Changes []achg
 	PauseUS int // race only: pause between changes, so that they spread over the standby's reconnect (schedule perturbation, not an oracle)
 }
@@ -228,7 +291,7 @@ func TestPropE2ECut(t *testing.T) {
 	vstat.Checks(90, 2500)
 	rapid.Check(t, func(rt *rapid.T) {
 		skipIfInconclusive(rt)
-		runE2ECase(rt, genE2ECase([]string{"up", "up", "down", "down", "race", "burst"}).Draw(rt, "case"))
+		runE2ECase(rt, genE2ECase([]string{"up", "up", "down", "down", "race", "burst", "halfopen"}).Draw(rt, "case"))
 	})
 	leakCheck(t, base)
 }
@@ -239,7 +302,7 @@ func TestPropE2ERestart(t *testing.T) {
 	vstat.Checks(90, 2500)
 	rapid.Check(t, func(rt *rapid.T) {
 		skipIfInconclusive(rt)
-		runE2ECase(rt, genE2ECase([]string{"up", "restart", "restart", "down", "race"}).Draw(rt, "case"))
+		runE2ECase(rt, genE2ECase([]string{"up", "restart", "restart", "down", "race", "halfopen"}).Draw(rt, "case"))
 	})
 	leakCheck(t, base)
 }
@@ -288,9 +351,9 @@ func runE2ECase(t fataler, c e2eCase) {
 		dead = true
 		if os.Getenv("C13_DEBUG_STACKS") != "" {
 			fw.mu.Lock()
-			fmt.Fprintf(os.Stderr, "forwarder %s up=%v tracked=%d\n", fw.addr(), fw.up, len(fw.conns))
-			for c := range fw.conns {
-				fmt.Fprintf(os.Stderr, "  conn %s -> %s\n", c.LocalAddr(), c.RemoteAddr())
+			fmt.Fprintf(os.Stderr, "forwarder %s up=%v pairs=%d\n", fw.addr(), fw.up, len(fw.pairs))
+			for p := range fw.pairs {
+				fmt.Fprintf(os.Stderr, "  pair standby %s <-> active %s frozen=%v\n", p.down.RemoteAddr(), p.up.LocalAddr(), p.frozen)
 			}
 			fw.mu.Unlock()
 			buf := make([]byte, 1<<20)
@@ -325,6 +388,7 @@ func runE2ECase(t fataler, c e2eCase) {
 		})
 	}
 	sentinels := 0
+	lastLink := "initial" // what the link went through last (names the verdict of a dead wait)
 	// quiesce: the active goes quiet, the sentinel is the last change pushed; once the standby shows it
 	// every earlier change of the (ordered) stream has been applied — provided the sentinel reached the
 	// standby THROUGH THE STREAM (one ordered channel, one reader).  A sentinel that arrived inside the
@@ -342,8 +406,48 @@ func runE2ECase(t fataler, c e2eCase) {
 			sentinels++
 			sid := act.sentinel(sentinels)
 			hist = append(hist, "sentinel")
-			if !pollUntil(func() bool { return held(sid) }) {
-				inconclusive("sentinel %s not seen on the standby within %v", sid, waitTimeout)
+			// The wait is decided by the state sampled all along, not by its length (see pollWatch).  Dead state:
+			// the standby says it is connected (it is in its read loop on an answered stream request, its full
+			// sync done), the active holds nothing in any queue, and neither the standby's table, its sync and
+			// error stamps, nor whether the active has any stream client changed over the whole run — while the
+			// sentinel, stored and pushed before the run began, is not on the standby.
+			// Why the unchanged tree cannot be there for the run (checked against pkg/ha/sync.go):
+			//  * handleSessionStream registers its client BEFORE it writes the first byte (the headers leave with
+			//    the first Flush, in sendSSE, after the registration), and the standby sets connected only after
+			//    client.Do returned those headers and its full sync completed.  So "standby connected" implies
+			//    "its handler registered a client under its connection's RemoteAddr".
+			//  * that key is removed only (a) by that handler's own deferred delete as it returns, (b) by
+			//    broadcastToClients on overflow, which also closes the channel so that the handler returns, or (c) by
+			//    Stop.  When the handler returns net/http ends the chunked body, the forwarder copies the bytes,
+			//    the standby's ReadString fails with EOF, connectToStream returns and its deferred function clears
+			//    connected.  Between "client removed" and "connected == false" there are only runnable goroutines.
+			//    A handler of ANOTHER connection cannot remove it: RemoteAddr is unique among connections that
+			//    are open at the same time.
+			//  * a sentinel pushed while the client is registered is queued (backlog > 0), then in the hands of the
+			//    runnable handler, then on the wire; if it was broadcast to nobody because the link was bouncing, the
+			//    standby's next full sync (sync stamp changes) brings it, because the store is written before the push.
+			// Everything else that can be observed at expiry stays INCONCLUSIVE.
+			var noClient bool
+			var lastState string
+			pr := pollWatch(func() bool { return held(sid) }, func() (bool, string) {
+				st := sb.Stats()
+				noClient = act.syn.VerifSSEClientCount() == 0
+				lastState = fmt.Sprintf("noClient=%v sync=%d err=%d/%q table=%x", noClient, st.LastSyncTime.UnixNano(), st.LastErrorTime.UnixNano(), st.LastError, storeFP(sbStore))
+				return st.Connected && act.syn.VerifSSEBacklog() == 0, lastState
+			})
+			switch pr {
+			case pollDead:
+				d := diffTable(sbStore.GetAllSessions(), act.tbl)
+				if noClient {
+					fail(sigNotRegistered+"/"+lastLink, "the standby reports connected=true (no error, no sync since %s) but the active has NO registered stream client and nothing queued; unchanged over >= %v and >= %d samples, so sentinel %s (stored and pushed with the link up) can never arrive; standby vs active: %v",
+						sb.Stats().LastSyncTime.Format("15:04:05.000"), deadWindow, deadMinSamples, sid, d)
+				} else {
+					fail(sigStableDead+"/"+lastLink, "the standby is connected, the active has a registered stream client (%v) and nothing queued, yet sentinel %s (stored and pushed with the link up) is not on the standby and nothing moved over >= %v and >= %d samples; standby vs active: %v",
+						act.syn.VerifSSEClientIDs(), sid, deadWindow, deadMinSamples, d)
+				}
+				return false
+			case pollExpired:
+				inconclusive("sentinel %s not seen on the standby within %v and no stable state over the wait (last sample: %s)", sid, watchTimeout, lastState)
 				return false
 			}
 			// the sentinel may have arrived through the snapshot of a reconnect that is still in progress
@@ -432,6 +536,7 @@ func runE2ECase(t fataler, c e2eCase) {
 		case "down":
 			// the link is cut and stays down while the active moves on; then it is restored
 			hist = append(hist, "cut+down")
+			lastLink = "after-bounce"
 			mark := time.Now() // before the cut: no full sync happens spontaneously while the stream is up
 			fw.cut(true)
 			do("link-down", ph.Changes, true)
@@ -457,6 +562,7 @@ func runE2ECase(t fataler, c e2eCase) {
 		case "restart":
 			// the standby process is stopped and started again (its in-memory table is gone)
 			hist = append(hist, "standby-stop")
+			lastLink = "after-restart"
 			sb.Stop()
 			do("standby-stopped", ph.Changes, false) // the restarted standby holds nothing: no steering, not an NT class
 			if !activeDrained() {
@@ -474,9 +580,37 @@ func runE2ECase(t fataler, c e2eCase) {
 			if !dead && quiesce() {
 				compare(what, func(tdiff) string { return sigE2EDiverged })
 			}
+		case "halfopen":
+			// the standby's connection dies in a way the active does not notice (the forwarder closes the
+			// standby's side and keeps the active's side open); the standby reconnects and resynchronises while
+			// the active's old stream handler lives on; only then the active's side is closed as well and the old
+			// handler is torn down.  Changes pushed after that, with the link up, must reach the standby.
+			hist = append(hist, "freeze")
+			lastLink = "after-halfopen"
+			mark := time.Now()
+			gone := act.logc.disconnected.Load()
+			frozen := fw.freeze()
+			if !linkUp(mark) {
+				inconclusive("link did not come back within %v after the standby's side was closed", waitTimeout)
+				break
+			}
+			hist = append(hist, "release")
+			fw.releaseFrozen()
+			// place the next step after the old handler's teardown (the active logs it); if the line never
+			// comes the phase just goes on — this wait carries no verdict
+			// (frozen counts every forwarded connection, the standby's idle keep-alive connection for its GETs
+			// included; exactly one of them carried the stream)
+			if frozen > 0 && bounded(2*time.Second, func() bool { return act.logc.disconnected.Load() > gone }) {
+				cls["halfopen:old-handler-torn-down-after-reconnect"] = true
+			}
+			do("connected", ph.Changes, false)
+			if quiesce() {
+				compare(what, func(tdiff) string { return sigE2EDiverged })
+			}
 		case "race":
 			// the link is cut but not kept down: the active keeps changing while the standby reconnects
 			hist = append(hist, "cut")
+			lastLink = "after-bounce"
 			mark := time.Now()
 			fw.cut(false)
 			pause = time.Duration(ph.PauseUS) * time.Microsecond
